@@ -6,16 +6,23 @@
 // a call into a package that may not exist yet).  Every history is executed under every configuration and
 // must give, block by block, byte-identical app hashes and identical per-tx (error, data, events, gas used,
 // gas wanted):
-//   * every RESTART PATTERN = subset of block boundaries at which the app is closed and re-opened on the same
+//   - every RESTART PATTERN = subset of block boundaries at which the app is closed and re-opened on the same
 //     DB (cold caches, LoadLatestVersion, VM Initialize) — all 2^(blocks-1) subsets for the long histories;
-//   * short histories: prefix block, then EVERY single tx and ordered pair (quick: a third of the pairs) in one
+//   - short histories: prefix block, then EVERY single tx and ordered pair (quick: a third of the pairs) in one
 //     block, warm vs cold (restart right before the block);
-//   * backends memdb / goleveldb / pebbledb / boltdb (real files under .work/c01);
-//   * GOMAXPROCS 1 vs 16 (worker subprocess);
-//   * the same history twice in one process and in a second process (run-to-run nondeterminism such as map order
-//     shows up as a difference between repeats; it is enumerated by seed in the thorough tier only where the
-//     patched runtime is available — here: repeats).
-// The reference is "memdb, never restarted".
+//   - backends memdb / goleveldb / pebbledb / boltdb (real files under .work/c01);
+//   - GOMAXPROCS 1 vs 16 (worker subprocess);
+//   - the same history twice in one process and in a second process;
+//   - GO MAP ITERATION ORDER is owned through engine E9 (mapseed.go): a second binary of this harness is built with the
+//     patched GOROOT /verif/goroot-mapseed, in which the iteration start offsets, the per-map hash seed and the
+//     per-process hash keys are a function of VERIF_MAPSEED; the long histories are replayed by one worker process per
+//     seed (thorough: every long history x seeds 1..8 = all 8 rotations of every <=8-entry map; quick: one history x
+//     seeds {1,2,3,5}, only when the patched GOROOT and the prebuilt binary exist) and compared block by block.
+//     The menu contains ONE message that grows 4 template realms (same code, equal-length paths) by exactly the same
+//     byte count (+ a too-small MaxDeposit variant, + the symmetric release), the input a map-order dependence of the
+//     storage-deposit settlement needs.
+//
+// The reference is "memdb, never restarted, pristine runtime".
 package main
 
 import (
@@ -27,10 +34,15 @@ import (
 	"path/filepath"
 	"runtime/debug"
 	"strings"
+	"sync"
+	"sync/atomic"
 	"time"
 
-	"github.com/gnolang/gno/tm2/pkg/db/boltdb"
+	"github.com/gnolang/gno/gno.land/pkg/sdk/vm"
+	"github.com/gnolang/gno/gnovm/stdlibs/chain"
+	abci "github.com/gnolang/gno/tm2/pkg/bft/abci/types"
 	dbm "github.com/gnolang/gno/tm2/pkg/db"
+	"github.com/gnolang/gno/tm2/pkg/db/boltdb"
 	"github.com/gnolang/gno/tm2/pkg/db/goleveldb"
 	"github.com/gnolang/gno/tm2/pkg/db/memdb"
 	"github.com/gnolang/gno/tm2/pkg/db/pebbledb"
@@ -44,7 +56,38 @@ const (
 	pa   = "gno.land/r/verif/alpha"
 	pb   = "gno.land/r/verif/beta"
 	plib = "gno.land/p/verif/lib"
+	pm   = "gno.land/r/verif/master"
 )
+
+// four sibling realms stamped from one template: identical code (up to the package name), equal-length paths
+var twins = []string{"gno.land/r/verif/twin_aa", "gno.land/r/verif/twin_bb", "gno.land/r/verif/twin_cc", "gno.land/r/verif/twin_dd"}
+
+func twinSrc(p string) string {
+	return "package " + p[strings.LastIndex(p, "/")+1:] + `
+
+var storage []string
+
+func Grow(cur realm, n int) {
+	for i := 0; i < n; i++ {
+		storage = append(storage, "data_data_data_data")
+	}
+}
+
+func Shrink(cur realm) { storage = nil }
+`
+}
+
+func masterSrc() string {
+	var imp, grow, shrink strings.Builder
+	// the call order (dd, bb, aa, cc) differs from the path order, so "order of first touch" != "sorted by path"
+	for _, i := range []int{3, 1, 0, 2} {
+		a := twins[i][strings.LastIndex(twins[i], "/")+1:]
+		fmt.Fprintf(&imp, "\t%q\n", twins[i])
+		fmt.Fprintf(&grow, "\t%s.Grow(cross(cur), 10)\n", a)
+		fmt.Fprintf(&shrink, "\t%s.Shrink(cross(cur))\n", a)
+	}
+	return "package master\n\nimport (\n" + imp.String() + ")\n\nfunc GrowAll(cur realm) {\n" + grow.String() + "}\n\nfunc ShrinkAll(cur realm) {\n" + shrink.String() + "}\n"
+}
 
 const realmA = `package alpha
 
@@ -125,6 +168,10 @@ func spec() chainx.Spec {
 		gen(chainx.AddPkg(A.Addr, pa, map[string]string{"a.gno": realmA})),
 		gen(chainx.AddPkg(A.Addr, pb, realmB)),
 	}
+	for _, t := range twins {
+		s.GenesisTxs = append(s.GenesisTxs, gen(chainx.AddPkg(A.Addr, t, map[string]string{"t.gno": twinSrc(t)})))
+	}
+	s.GenesisTxs = append(s.GenesisTxs, gen(chainx.AddPkg(A.Addr, pm, map[string]string{"m.gno": masterSrc()})))
 	return s
 }
 
@@ -167,11 +214,80 @@ var menu = []txDef{
 	{"c.F", func(c *chainx.Chain, n int) std.Tx {
 		return c.MakeTx(keys, []std.Msg{chainx.Call(A.Addr, nil, "gno.land/r/verif/gamma", "F")}, chainx.TxOpt{})
 	}},
+	// 11: ONE message grows the 4 twin realms by exactly the same byte count (4 equal positive storage deltas)
+	{"m.GrowAll", func(c *chainx.Chain, n int) std.Tx {
+		return c.MakeTx(keys, []std.Msg{chainx.Call(B.Addr, nil, pm, "GrowAll")}, chainx.TxOpt{})
+	}},
+	// 12: the same with a MaxDeposit that covers two and a half of the four equal locks (lowDeposit is measured by probe())
+	{"m.GrowAll-lowdep", func(c *chainx.Chain, n int) std.Tx {
+		m := chainx.Call(B.Addr, nil, pm, "GrowAll").(vm.MsgCall)
+		m.MaxDeposit = coins(lowDeposit)
+		return c.MakeTx(keys, []std.Msg{m}, chainx.TxOpt{})
+	}},
+	// 13: ONE message releases the storage of the 4 twin realms (equal negative deltas when they grew equally)
+	{"m.ShrinkAll", func(c *chainx.Chain, n int) std.Tx {
+		return c.MakeTx(keys, []std.Msg{chainx.Call(B.Addr, nil, pm, "ShrinkAll")}, chainx.TxOpt{})
+	}},
+}
+
+// lowDeposit = 2.5 x the deposit one twin realm locks in the first GrowAll (measured by probe, passed to workers).
+var lowDeposit int64 = 1
+
+// equalDeltaMsgs counts delivered txs whose events carry >= 2 storage deposit/unlock events with EQUAL byte deltas
+// for different realms (the input a delta-only ordering needs); non-vacuity guard.
+var equalDeltaMsgs atomic.Int64
+
+func noteEqualDeltas(res abci.ResponseDeliverTx) {
+	byDelta := map[int64]int{}
+	for _, e := range res.Events {
+		switch ev := e.(type) {
+		case chain.StorageDepositEvent:
+			byDelta[ev.BytesDelta]++
+		case chain.StorageUnlockEvent:
+			byDelta[ev.BytesDelta]++
+		}
+	}
+	for _, n := range byDelta {
+		if n >= 2 {
+			equalDeltaMsgs.Add(1)
+			return
+		}
+	}
+}
+
+// probe runs GrowAll once on a fresh chain: the 4 twins must lock the same byte count; returns bytes and fee per realm.
+func probe() (bytes, fee int64, err error) {
+	c, err := chainx.New(memdb.NewMemDB(), spec())
+	if err != nil {
+		return 0, 0, err
+	}
+	c.BeginBlock()
+	res := c.DeliverTx(menu[11].mk(c, 0))
+	c.EndBlockCommit()
+	if res.Error != nil {
+		return 0, 0, fmt.Errorf("probe GrowAll failed: %s", res.Log)
+	}
+	seen := map[string]bool{}
+	for _, e := range res.Events {
+		if ev, ok := e.(chain.StorageDepositEvent); ok {
+			if bytes != 0 && ev.BytesDelta != bytes {
+				return 0, 0, fmt.Errorf("twin realms grew by different byte counts: %d vs %d (%s)", bytes, ev.BytesDelta, ev.PkgPath)
+			}
+			bytes, fee = ev.BytesDelta, ev.FeeDelta.Amount
+			seen[ev.PkgPath] = true
+		}
+	}
+	if len(seen) != len(twins) || bytes <= 0 {
+		return 0, 0, fmt.Errorf("probe: expected one StorageDepositEvent per twin realm, got %d (bytes %d)", len(seen), bytes)
+	}
+	return bytes, fee, nil
 }
 
 var longHistories = [][][]int{
 	{{1, 2}, {4, 5}, {6, 3}, {10, 8, 10}},
 	{{8}, {10, 4}, {7, 2}, {5, 9}},
+	{{11, 2}, {12, 4}, {13, 11}, {11, 12, 1}}, // equal-delta messages (quick + thorough; the quick map-seed history)
+	{{11}, {11, 13}, {8, 12}, {10, 11}},
 	{{2, 2}, {3, 0}, {4, 4}, {1, 7}},
 	{{5}, {}, {5, 6}, {9, 10}},
 	{{7}, {7, 1}, {8, 10}, {3, 4, 2}},
@@ -243,6 +359,7 @@ func runHistory(hist [][]int, cfg config, dir string) (obs []string, err error) 
 		for _, ti := range blk {
 			res := c.DeliverTx(menu[ti].mk(c, n))
 			n++
+			noteEqualDeltas(res)
 			parts = append(parts, menu[ti].name+"{"+chainx.ResKey(res)+"}")
 		}
 		_, h := c.EndBlockCommit()
@@ -255,9 +372,10 @@ func runHistory(hist [][]int, cfg config, dir string) (obs []string, err error) 
 }
 
 type job struct {
-	Name string  `json:"name"`
-	Hist [][]int `json:"hist"`
-	Cfg  config  `json:"cfg"`
+	Name       string  `json:"name"`
+	Hist       [][]int `json:"hist"`
+	Cfg        config  `json:"cfg"`
+	LowDeposit int64   `json:"low_deposit"`
 }
 
 func histName(h [][]int) string {
@@ -274,6 +392,13 @@ func histName(h [][]int) string {
 
 var r *vk.Run
 
+var t0 = time.Now()
+
+// phase prints a progress line with the elapsed wall time to stderr (diagnostics only).
+func phase(f string, a ...any) {
+	fmt.Fprintf(os.Stderr, "[c01 %6.1fs] %s\n", time.Since(t0).Seconds(), fmt.Sprintf(f, a...))
+}
+
 func main() {
 	debug.SetGCPercent(400)
 	worker := flag.String("worker", "", "internal: JSON file with jobs; prints observations as JSON")
@@ -283,7 +408,11 @@ func main() {
 		b, _ := os.ReadFile(*worker)
 		json.Unmarshal(b, &jobs)
 		out := map[string][]string{}
+		if ms := os.Getenv("VERIF_MAPSEED"); ms != "" {
+			out["mapseed-probe"] = []string{mapseedProbe(ms)}
+		}
 		for i, j := range jobs {
+			lowDeposit = j.LowDeposit
 			o, err := runHistory(j.Hist, j.Cfg, filepath.Join(vk.Root, ".work", "c01", fmt.Sprintf("wdb%d-%d", os.Getpid(), i)))
 			if err != nil {
 				o = []string{"ERROR " + err.Error()}
@@ -294,8 +423,21 @@ func main() {
 		fmt.Println("RESULT " + string(bb))
 		return
 	}
-	r.SetBudget(240*time.Second, 30*time.Minute)
+	r.SetBudget(480*time.Second, 40*time.Minute) // caps, not targets: quick is ~1 min on an idle 16-core machine, several minutes when the machine is shared
 	os.MkdirAll(filepath.Join(vk.Root, ".work", "c01"), 0o755)
+	// the map-seed binary (engine E9) is built in the background while the in-process configurations run
+	msCh := make(chan mapseedBuild, 1)
+	go func() {
+		b := ensureMapseedBinary(r.Thorough())
+		phase("map-seed binary: bin=%q skipped=%q err=%v", b.bin, b.skipped, b.err)
+		msCh <- b
+	}()
+	twinBytes, twinFee, err := probe()
+	if err != nil {
+		r.HarnessError("%v", err)
+	}
+	lowDeposit = twinFee*2 + twinFee/2
+	phase("probe done: %d bytes / %d ugnot per twin realm", twinBytes, twinFee)
 
 	// ---- build the job list ----
 	type cmp struct {
@@ -306,7 +448,7 @@ func main() {
 	var cmps []cmp
 	hs := longHistories
 	if r.Quick() {
-		hs = longHistories[:2]
+		hs = [][][]int{longHistories[0], longHistories[2]} // one classic history + the equal-delta history
 	}
 	for _, h := range hs {
 		nb := len(h)
@@ -339,7 +481,7 @@ func main() {
 	for i := range menu {
 		shorts = append(shorts, [][]int{{8}, {i}})
 		for j := range menu {
-			if r.Quick() && (i+3*j)%11 != 0 {
+			if r.Quick() && (i+3*j)%(2*len(menu)) != 0 { // quick: 7 of the 196 ordered pairs
 				continue
 			}
 			shorts = append(shorts, [][]int{{8}, {i, j}})
@@ -367,6 +509,7 @@ func main() {
 		}
 		refObs[i] = o
 	})
+	phase("%d reference runs done", len(uniq))
 	for i, h := range uniq {
 		refs[histName(h)] = refObs[i]
 		for _, o := range refObs[i] {
@@ -375,6 +518,83 @@ func main() {
 	}
 	if r.Capped() {
 		r.Finish("capped during reference runs", false, map[string]any{"states": 1, "transitions": 1, "traces_validated_against_impl": 0})
+	}
+	// ---- Go map iteration order (engine E9): the equal-delta histories under map seeds, one worker process per seed,
+	// running beside the in-process comparisons (separate processes; not subject to the ParFor budget stop) ----
+	msHists, msSeeds := hs, []int{1, 2, 3, 4, 5, 6, 7, 8}
+	if r.Quick() {
+		msHists, msSeeds = longHistories[2:3], []int{1, 2, 3, 5}
+	}
+	type msOut struct {
+		b       mapseedBuild
+		results []map[string][]string
+		errs    []string
+	}
+	msDone := make(chan msOut, 1)
+	go func() {
+		o := msOut{b: <-msCh, results: make([]map[string][]string, len(msSeeds)), errs: make([]string, len(msSeeds))}
+		if o.b.err != nil || o.b.bin == "" {
+			msDone <- o
+			return
+		}
+		var mjobs []job
+		for i, h := range msHists {
+			mjobs = append(mjobs, job{fmt.Sprintf("h%d", i), h, config{Backend: "memdb"}, lowDeposit})
+		}
+		jb, _ := json.Marshal(mjobs)
+		mjf := filepath.Join(vk.Root, ".work", "c01", "mapseed-jobs"+mutSuffix()+".json")
+		os.WriteFile(mjf, jb, 0o644)
+		var wg sync.WaitGroup
+		for k := range msSeeds {
+			wg.Add(1)
+			go func(k int) {
+				defer wg.Done()
+				cmd := exec.Command(o.b.bin, "-id", r.ID, "-worker", mjf)
+				cmd.Env = append(os.Environ(), fmt.Sprintf("VERIF_MAPSEED=%d", msSeeds[k]))
+				out, err := cmd.CombinedOutput()
+				ok := false
+				for _, line := range strings.Split(string(out), "\n") {
+					if strings.HasPrefix(line, "RESULT ") {
+						ok = json.Unmarshal([]byte(line[7:]), &o.results[k]) == nil
+					}
+				}
+				if !ok {
+					o.errs[k] = fmt.Sprintf("%v %s", err, tail(string(out), 800))
+				}
+			}(k)
+		}
+		wg.Wait()
+		phase("map-seed workers done (%d seeds x %d histories)", len(msSeeds), len(msHists))
+		msDone <- o
+	}()
+	// GOMAXPROCS=1 and 16: second-process repeats of the long histories, running beside the in-process comparisons
+	var wjobs []job
+	for i, h := range hs {
+		wjobs = append(wjobs, job{fmt.Sprintf("h%d", i), h, config{Backend: "memdb"}, lowDeposit})
+	}
+	wjb, _ := json.Marshal(wjobs)
+	jf := filepath.Join(vk.Root, ".work", "c01", "wjobs"+mutSuffix()+".json")
+	os.WriteFile(jf, wjb, 0o644)
+	gmps := []string{"1", "16"}
+	gmpRes := make([]map[string][]string, len(gmps))
+	gmpErr := make([]string, len(gmps))
+	gmpDone := []chan struct{}{make(chan struct{}), make(chan struct{})}
+	for gi, gmp := range gmps {
+		go func(gi int, gmp string) {
+			defer close(gmpDone[gi])
+			cmd := exec.Command(os.Args[0], "-id", r.ID, "-worker", jf)
+			cmd.Env = append(os.Environ(), "GOMAXPROCS="+gmp)
+			out, err := cmd.CombinedOutput()
+			ok := false
+			for _, line := range strings.Split(string(out), "\n") {
+				if strings.HasPrefix(line, "RESULT ") {
+					ok = json.Unmarshal([]byte(line[7:]), &gmpRes[gi]) == nil
+				}
+			}
+			if !ok {
+				gmpErr[gi] = fmt.Sprintf("%v %s", err, tail(string(out), 800))
+			}
+		}(gi, gmp)
 	}
 	blocks := 0
 	r.ParFor(len(cmps), func(i int) {
@@ -399,31 +619,17 @@ func main() {
 			}
 		}
 	})
+	phase("%d in-process configurations done", len(cmps))
 	for _, c := range cmps {
 		blocks += len(c.hist)
 	}
-	// GOMAXPROCS=1 and second-process repeats of the long histories
-	var wjobs []job
-	for i, h := range hs {
-		wjobs = append(wjobs, job{fmt.Sprintf("h%d", i), h, config{Backend: "memdb"}})
-	}
-	jb, _ := json.Marshal(wjobs)
-	jf := filepath.Join(vk.Root, ".work", "c01", "wjobs.json")
-	os.WriteFile(jf, jb, 0o644)
-	for _, gmp := range []string{"1", "16"} {
-		cmd := exec.Command(os.Args[0], "-id", r.ID, "-worker", jf)
-		cmd.Env = append(os.Environ(), "GOMAXPROCS="+gmp)
-		out, err := cmd.CombinedOutput()
-		var res map[string][]string
-		ok := false
-		for _, line := range strings.Split(string(out), "\n") {
-			if strings.HasPrefix(line, "RESULT ") {
-				ok = json.Unmarshal([]byte(line[7:]), &res) == nil
-			}
+	// GOMAXPROCS=1 / 16 second-process repeats (started before the in-process comparisons, see above)
+	for gi, gmp := range gmps {
+		<-gmpDone[gi]
+		if gmpErr[gi] != "" {
+			r.HarnessError("GOMAXPROCS=%s worker failed: %s", gmp, gmpErr[gi])
 		}
-		if !ok {
-			r.HarnessError("GOMAXPROCS=%s worker failed: %v %s", gmp, err, tail(string(out), 800))
-		}
+		res := gmpRes[gi]
 		for i, h := range hs {
 			r.Eval()
 			r.Outcome("second-process-GOMAXPROCS-" + gmp)
@@ -433,16 +639,71 @@ func main() {
 			}
 		}
 	}
+	phase("GOMAXPROCS workers done")
+	eqRef := equalDeltaMsgs.Load()
+	if eqRef == 0 {
+		r.HarnessError("no delivered message had two realms with equal storage deltas (vacuous for delta-ordered settlement)")
+	}
+	mso := <-msDone
+	msb, results := mso.b, mso.results
+	msRuns := 0
+	switch {
+	case msb.err != nil:
+		r.HarnessError("map-seed binary: %v", msb.err)
+	case msb.bin == "":
+		r.Outcome("mapseed-skipped:" + msb.skipped)
+	default:
+		for k, seed := range msSeeds {
+			if mso.errs[k] != "" {
+				r.HarnessError("map-seed worker seed=%d failed: %s", seed, mso.errs[k])
+			}
+			if p := strings.Join(results[k]["mapseed-probe"], ""); p != "ok" {
+				r.HarnessError("map-seed worker seed=%d does not run on the patched runtime: %s", seed, p)
+			}
+		}
+		for i, h := range msHists {
+			name := histName(h)
+			ref := refs[name]
+			var bad []int
+			var first map[string]any
+			for k, seed := range msSeeds {
+				r.Eval()
+				r.Outcome("mapseed")
+				msRuns++
+				blocks += len(h)
+				got := results[k][fmt.Sprintf("h%d", i)]
+				for b := range ref {
+					if b >= len(got) || got[b] != ref[b] {
+						g := "(missing)"
+						if b < len(got) {
+							g = got[b]
+						}
+						bad = append(bad, seed)
+						if first == nil {
+							first = map[string]any{"seed": seed, "block": b + 1, "reference": ref[b], "got": g}
+						}
+						break
+					}
+				}
+			}
+			if len(bad) > 0 {
+				// the key names the history, not the seeds: under a map-order dependence the pristine-runtime reference is
+				// itself one of the possible orders, so WHICH seeds differ from it varies from run to run
+				r.Violation("diverges:mapseed:"+name, map[string]any{"history": name, "seeds_tried": msSeeds, "seeds_diverging_from_reference": bad, "first": first})
+			}
+		}
+	}
 	r.Sample(map[string]any{"history": histName(longHistories[0]), "reference_blocks": refs[histName(longHistories[0])]})
 	r.Sample(map[string]any{"history": histName(shorts[1]), "config": "cold-before-last-block"})
 	r.Assumptions = []string{
 		"block execution is single-threaded by construction; GOMAXPROCS is a configuration (1 and 16), OS thread schedules are not enumerated",
-		"Go map iteration order is not owned by this check: it is exercised only through repeats in two processes (a map-order dependence shows as run-to-run divergence)",
+		mapOrderAssumption(msb, msRuns, len(msHists), msSeeds),
 		"backends: pure-Go ones buildable here (memdb, goleveldb, pebbledb, boltdb in thorough); cgo lmdb/mdbx not explored",
 		"chainx commits the genesis state as its own store version (as the repo's app tests do)",
 	}
-	r.Finish("histories over an 11-tx menu x {every restart pattern (quick: single and all), warm vs cold for every single tx and ordered pair after a prefix block, 2-3 disk backends with and without restarts, repeat in process, second process with GOMAXPROCS 1 and 16}; each compared block by block (app hash, per-tx error/data/events/gas) with the memdb never-restarted reference; distinct = distinct block observations of the reference runs",
-		true, map[string]any{"states": r.NDistinct(), "transitions": blocks, "traces_validated_against_impl": blocks, "histories": len(uniq), "configurations_compared": len(cmps) + 2*len(hs)})
+	r.Finish("histories over a 14-tx menu x {every restart pattern (quick: single and all), warm vs cold for every single tx and ordered pair after a prefix block, 2-3 disk backends with and without restarts, repeat in process, second process with GOMAXPROCS 1 and 16, Go map-order seeds on a patched runtime (worker process per seed)}; each compared block by block (app hash, per-tx error/data/events/gas) with the memdb never-restarted reference; distinct = distinct block observations of the reference runs",
+		!r.Capped(), map[string]any{"states": r.NDistinct(), "transitions": blocks, "traces_validated_against_impl": blocks, "histories": len(uniq), "configurations_compared": len(cmps) + 2*len(hs) + msRuns,
+			"mapseed_runs": msRuns, "mapseed_seeds": len(msSeeds), "equal_delta_messages_delivered": eqRef, "twin_realm_bytes_per_grow": twinBytes})
 }
 
 func tail(s string, n int) string {
